@@ -41,13 +41,17 @@ pub fn run(cfg: &RunCfg) -> Ctx {
     }
     let mut all = Ctx::new();
     all.merge(par_cases(cfg, "wire", cfg.n(4000, 16 * 120_000), || (), |_, rng, ctx, i| case(rng, ctx, i)));
+    all.merge(par_cases(cfg, "layers", cfg.n(100, 16 * 500), || (), |_, rng, ctx, i| layers_case(rng, ctx, i)));
+    for k in ["layers.server-timeout", "layers.caller-timeout", "layers.concurrency-limit", "layers.unknown-path", "layers.plain-ok"] {
+        all.floor(k, 3);
+    }
     *WIRELOG.lock().unwrap() = None;
     all.add("wirelog.records", WIRELOG_LINES.load(Relaxed).min(WIRELOG_MAX));
     for e in Enc::all() {
         all.floor(&format!("req.enc.{}", e.name()), 5);
         all.floor(&format!("resp.enc.{}", e.name()), 5);
     }
-    for k in ["outcome.ok", "outcome.handler_error", "outcome.source_error_mid_stream", "outcome.encode_failure", "outcome.client_encode_failure", "req.streaming_body"] {
+    for k in ["outcome.ok", "outcome.handler_error", "outcome.source_error_mid_stream", "outcome.encode_failure", "outcome.client_encode_failure", "req.streaming_body", "req.caller_supplied_grpc_encoding"] {
         all.floor(k, 5);
     }
     all
@@ -164,7 +168,16 @@ fn case(rng: &mut Rng, ctx: &mut Ctx, idx: u64) {
         }
     }
     let nreq = req_msgs.len();
-    let spec = CallSpec { id: id.clone(), shape, req_msgs: req_msgs.clone(), req_meta: gen_meta(rng, 3, false), req_pend: (0..nreq + 1).map(|_| rng.below(2) as u8).collect(), req_gaps_ms: vec![], timeout: None };
+    let mut req_meta = gen_meta(rng, 3, false);
+    // metadata a caller may have copied over from another call: the announcement on the wire must
+    // still be the one that matches how this request's messages are actually written
+    if c_send.is_some() && rng.chance(1, 3) {
+        let v = *rng.pick(&["identity", "gzip", "deflate", "zstd"]);
+        let at = rng.usize_below(req_meta.len() + 1);
+        req_meta.insert(at, ("grpc-encoding".to_string(), crate::gen::MVal::Ascii(v.to_string())));
+        ctx.count("req.caller_supplied_grpc_encoding");
+    }
+    let spec = CallSpec { id: id.clone(), shape, req_msgs: req_msgs.clone(), req_meta, req_pend: (0..nreq + 1).map(|_| rng.below(2) as u8).collect(), req_gaps_ms: vec![], timeout: None };
     let case_json = json!({"shape": format!("{:?}", shape), "client_send": c_send.map(|e| e.name()), "server_send": s_send.map(|e| e.name()), "outcome": outcome,
         "response_msg_sizes": script.msgs.iter().map(|m| m.data.len()).collect::<Vec<_>>(), "request_msgs": nreq, "server_encode_limit": server_limit});
     ctx.begin(&format!("{}-{:?}", outcome, shape), case_json.clone());
@@ -332,4 +345,137 @@ fn case(rng: &mut Rng, ctx: &mut Ctx, idx: u64) {
         outcome != "ok" || c_send.is_some() || resp_enc.is_some(),
     );
     ctx.sample(case_json);
+}
+
+// ------------------------------------------------------------------ responses produced by the Server's own layers
+
+/// A raw HTTP/2 client (hyper, no tonic) talks to the real `tonic::transport::Server` and provokes
+/// the responses that come from the server's layers instead of a handler: an expired configured
+/// timeout, an expired caller `grpc-timeout`, queueing under a per-connection concurrency limit, an unknown
+/// path.  Each must be a spec-conformant gRPC response: 200, `application/grpc`, exactly one
+/// `grpc-status`.
+fn layers_case(rng: &mut Rng, ctx: &mut Ctx, idx: u64) {
+    use crate::transport::{paused_rt, pipe, quiesce, PipeCfg};
+    use http_body_util::BodyExt;
+    use hyper_util::rt::{TokioExecutor, TokioIo};
+    use std::time::Duration;
+    let kind = ["server-timeout", "caller-timeout", "concurrency-limit", "unknown-path", "plain-ok"][(idx % 5) as usize];
+    let pcfg = if rng.bool() { PipeCfg::plain() } else { PipeCfg::gen(rng) };
+    let seed = rng.u64();
+    ctx.begin(kind, json!({"kind": kind, "pipe": format!("{:?}", pcfg)}));
+    ctx.count(&format!("layers.{}", kind));
+    let rt = paused_rt();
+    let handler = Handler::new();
+    handler.set_script("slow", Script { latency_ms: 300, msgs: vec![Msg { data: vec![1; 5], seq: 1, tag: "late".into() }], ..Default::default() });
+    handler.set_script("fast", Script { msgs: vec![Msg { data: vec![2; 5], seq: 2, tag: "ok".into() }], ..Default::default() });
+    let h2 = handler.clone();
+    type Resp = (u16, http::HeaderMap, usize, Vec<http::HeaderMap>);
+    let out: Result<Vec<Resp>, String> = rt.block_on(async move {
+        let (tx, rx) = tokio::sync::mpsc::unbounded_channel();
+        let mut sb = tonic::transport::Server::builder();
+        match kind {
+            "server-timeout" => sb = sb.timeout(Duration::from_millis(40)),
+            "concurrency-limit" => sb = sb.concurrency_limit_per_connection(1),
+            _ => {}
+        }
+        let router = sb.add_service(VerifServer::new(h2));
+        let st = tokio::spawn(async move {
+            let _ = router.serve_with_incoming(crate::props::c14::Incoming(rx)).await;
+        });
+        let (a, b, _h) = pipe("raw", pcfg, Rng::new(seed), None);
+        tx.send(Ok(b)).map_err(|_| "listener gone".to_string())?;
+        let (mut sender, conn) = hyper::client::conn::http2::handshake(TokioExecutor::new(), TokioIo::new(a)).await.map_err(|e| format!("h2 handshake: {}", e))?;
+        let cj = tokio::spawn(async move {
+            let _ = conn.await;
+        });
+        let mk = |script: &str, path: &str, timeout: Option<&str>| {
+            let body = http_body_util::Full::new(bytes::Bytes::from(ref_frame(0, &ref_pb_encode(b"q", 1, ""))));
+            let mut req = http::Request::new(body);
+            *req.method_mut() = http::Method::POST;
+            *req.uri_mut() = format!("http://verif.test{}", path).parse().unwrap();
+            req.headers_mut().insert("content-type", "application/grpc".parse().unwrap());
+            req.headers_mut().insert("te", "trailers".parse().unwrap());
+            req.headers_mut().insert("x-script", script.parse().unwrap());
+            if let Some(t) = timeout {
+                req.headers_mut().insert("grpc-timeout", t.parse().unwrap());
+            }
+            req
+        };
+        let reqs = match kind {
+            "server-timeout" => vec![mk("slow", "/verif.v1.Verif/Unary", None)],
+            "caller-timeout" => vec![mk("slow", "/verif.v1.Verif/Unary", Some("25m"))],
+            "concurrency-limit" => vec![mk("slow", "/verif.v1.Verif/Unary", None), mk("fast", "/verif.v1.Verif/Unary", None)],
+            "unknown-path" => vec![mk("fast", "/verif.v1.Nope/Unary", None)],
+            _ => vec![mk("fast", "/verif.v1.Verif/Unary", None)],
+        };
+        let mut futs = Vec::new();
+        for r in reqs {
+            sender.ready().await.map_err(|e| format!("sender not ready: {}", e))?;
+            futs.push(sender.send_request(r));
+        }
+        let mut outs = Vec::new();
+        for f in futs {
+            let resp = match tokio::time::timeout(Duration::from_secs(60), f).await {
+                Err(_) => return Err("no response within 60 virtual seconds".to_string()),
+                Ok(Err(e)) => return Err(format!("request failed at the HTTP/2 level: {}", e)),
+                Ok(Ok(r)) => r,
+            };
+            let (parts, mut body) = resp.into_parts();
+            let mut data = 0usize;
+            let mut trailers = Vec::new();
+            loop {
+                match tokio::time::timeout(Duration::from_secs(60), body.frame()).await {
+                    Err(_) => return Err("response body did not end within 60 virtual seconds".to_string()),
+                    Ok(None) => break,
+                    Ok(Some(Err(e))) => return Err(format!("response body error: {}", e)),
+                    Ok(Some(Ok(fr))) => match fr.into_data() {
+                        Ok(d) => data += d.len(),
+                        Err(fr) => {
+                            if let Ok(t) = fr.into_trailers() {
+                                trailers.push(t);
+                            }
+                        }
+                    },
+                }
+            }
+            outs.push((parts.status.as_u16(), parts.headers, data, trailers));
+        }
+        drop(sender);
+        quiesce().await;
+        cj.abort();
+        st.abort();
+        Ok(outs)
+    });
+    drop(rt);
+    match out {
+        Err(e) => ctx.violation("layers-exchange-failed", e),
+        Ok(resps) => {
+            for (i, (status, headers, data, trailers)) in resps.iter().enumerate() {
+                let w = format!("{} response #{}", kind, i);
+                if *status != 200 {
+                    ctx.violation_class("response-http-status", kind, format!("{}: HTTP {}", w, status));
+                }
+                if headers.get("content-type").map(|v| v.as_bytes()) != Some(b"application/grpc") {
+                    ctx.violation_class("response-content-type", kind, format!("{}: content-type {:?} (headers: {:?})", w, headers.get("content-type"), headers.keys().map(|k| k.as_str()).collect::<Vec<_>>()));
+                }
+                let in_head = headers.get_all("grpc-status").iter().count();
+                let in_trl: usize = trailers.iter().map(|t| t.get_all("grpc-status").iter().count()).sum();
+                if in_head + in_trl != 1 {
+                    ctx.violation_class("grpc-status-count", kind, format!("{}: {} grpc-status in the headers, {} in {} trailers block(s)", w, in_head, in_trl, trailers.len()));
+                }
+                if in_head == 1 && (*data != 0 || !trailers.is_empty()) {
+                    ctx.violation_class("trailers-only-has-body", kind, format!("{}: grpc-status in the headers but {} body bytes / {} trailers blocks", w, data, trailers.len()));
+                }
+                let st = headers.get("grpc-status").or(trailers.first().and_then(|t| t.get("grpc-status"))).map(|v| String::from_utf8_lossy(v.as_bytes()).to_string());
+                ctx.distinct("layer_statuses", &format!("{}#{}:{:?}", kind, i, st));
+                // what the statement does not fix (which code the layer uses) is recorded only,
+                // except that a layer-made refusal is never a success
+                let must_fail = matches!((kind, i), ("server-timeout", 0) | ("caller-timeout", 0) | ("unknown-path", 0));
+                if must_fail && st.as_deref() == Some("0") {
+                    ctx.violation_class("layer-refusal-reported-ok", kind, format!("{}: grpc-status 0", w));
+                }
+            }
+            ctx.fingerprint(format!("layers|{}|{}", kind, resps.len()), true);
+        }
+    }
 }
